@@ -539,7 +539,7 @@ def run(ctx):
     hist['grid'] = len(grid)
     for i in range(0, len(grid), 2000):
         d.feed(grid[i:i + 2000])
-    n = 9000 if quick else 1200000
+    n = 9000 if quick else 1000000
     for i in range(0, n, 3000):
         d.feed(batch(min(3000, n - i)))
     ctx.cov['case_histogram'] = hist
